@@ -108,6 +108,7 @@ class Pool:
         # a mapping that fabricates values for missing keys, lacking defaulted fields of A
         import collections
 
+        self.partial_default = copy.deepcopy(PARTIAL)
         self.dd = collections.defaultdict(int, {"id": 1, "name": "n"})
         self.block = next(iter(fa.block_reader(io.BytesIO(_container_const(fa)))))  # a Block handed to write_block
         self.named = {}  # caller-supplied named-schema dictionary (may be filled)
@@ -275,6 +276,17 @@ def _custom_logical(fa, register):
             R.pop("string-rot13", None)
 
 
+def _with_default(t, default):
+    return {"type": "record", "name": "Dflt", "namespace": "dv", "fields": [{"name": "f", "type": t, "default": default}]}
+
+
+PARTIAL = {"type": "record", "name": "Drawing", "namespace": "pd", "fields": [
+    {"name": "id", "type": "int"},
+    {"name": "origin", "type": {"type": "record", "name": "Point", "fields": [{"name": "x", "type": "int"}, {"name": "y", "type": "int"}, {"name": "unit", "type": "string", "default": "mm"},
+                                                                             {"name": "tags", "type": {"type": "array", "items": "string"}, "default": []}]}, "default": {"x": 0, "y": 0}},
+    {"name": "other", "type": ["Point", "null"], "default": {"x": 1, "y": 1}}]}
+
+
 def _json_write(fa, s, recs):
     fo = io.StringIO()
     fa.json_writer(fo, s, recs)
@@ -339,6 +351,22 @@ CALLS = {
     "container_dd_validated": lambda fa, p: _container(fa, p.raw_a, [p.dd], validator=True),
     "custom_logical_unregistered": lambda fa, p: _custom_logical(fa, False),
     "custom_logical_registered": lambda fa, p: _custom_logical(fa, True),
+    # defaults that are equal as numbers but of different JSON types: each is judged on its own
+    "parse_int_default_1": lambda fa, p: fa.schema.to_parsing_canonical_form(fa.parse_schema(_with_default("int", 1))),
+    "parse_int_default_1.0": lambda fa, p: fa.schema.to_parsing_canonical_form(fa.parse_schema(_with_default("int", 1.0))),
+    "parse_int_default_true": lambda fa, p: fa.schema.to_parsing_canonical_form(fa.parse_schema(_with_default("int", True))),
+    "parse_boolean_default_true": lambda fa, p: fa.schema.to_parsing_canonical_form(fa.parse_schema(_with_default("boolean", True))),
+    "parse_boolean_default_1": lambda fa, p: fa.schema.to_parsing_canonical_form(fa.parse_schema(_with_default("boolean", 1))),
+    "parse_double_default_1": lambda fa, p: fa.schema.to_parsing_canonical_form(fa.parse_schema(_with_default("double", 1))),
+    "parse_string_default_0": lambda fa, p: fa.schema.to_parsing_canonical_form(fa.parse_schema(_with_default("string", 0))),
+    "parse_long_default_0.0": lambda fa, p: fa.schema.to_parsing_canonical_form(fa.parse_schema(_with_default("long", 0.0))),
+    "parse_long_default_0": lambda fa, p: fa.schema.to_parsing_canonical_form(fa.parse_schema(_with_default("long", 0))),
+    "parse_boolean_default_false": lambda fa, p: fa.schema.to_parsing_canonical_form(fa.parse_schema(_with_default("boolean", False))),
+    # a raw schema whose record-typed field carries a PARTIAL default (the caller's default dict must stay as written)
+    "parse_partial_default": lambda fa, p: fa.schema.to_parsing_canonical_form(fa.parse_schema(p.partial_default)),
+    "write_partial_default": lambda fa, p: _sl_write(fa, p.partial_default, {"id": 1}),
+    "validate_partial_default": lambda fa, p: fa.validate({"id": 1}, p.partial_default, raise_errors=False),
+    "canon_partial_default": lambda fa, p: fa.schema.to_parsing_canonical_form(p.partial_default),
     "load_schema": _load,
     "load_child": lambda fa, p: _load_named(fa, p, "acme.Child"),
     "load_order_diamond": lambda fa, p: _load_named(fa, p, "acme.Order"),
@@ -571,7 +599,7 @@ COLLIDERS = ["parse_a_into_named", "parse_b_into_named", "expand_a", "expand_nod
              "read_a_as_b", "read_b_as_a", "json_read_a_absent", "json_read_a_raw_absent", "json_read_b_absent", "generate_a", "generate_b_raw",
              "dec3_read", "dec12_read", "write_a_bad_last", "container_a", "container_read_a_as_b", "validate_a_raises", "load_schema",
              "parse_node_parsed_into_named", "write_node", "read_a", "read_b", "read_dangling_sub", "canon_piecewise", "container_piecewise",
-             "container_union_piecewise", "container_read_a", "generate_dangling", "load_child", "load_order_diamond", "readers_overlap", "writers_overlap", "read_a_as_aliased", "legacy_read_with_reader_schema", "legacy_read_plain", "validate_dd", "write_dd", "custom_logical_unregistered", "custom_logical_registered", "json_read_nested_defaults", "block_copy_twice", "block_copy_pool", "write_hinted_strict", "write_hinted", "dec_p6_read", "dec_p20_read"]
+             "container_union_piecewise", "container_read_a", "generate_dangling", "load_child", "load_order_diamond", "readers_overlap", "writers_overlap", "read_a_as_aliased", "legacy_read_with_reader_schema", "legacy_read_plain", "validate_dd", "write_dd", "custom_logical_unregistered", "custom_logical_registered", "parse_int_default_1", "parse_int_default_1.0", "parse_boolean_default_1", "parse_boolean_default_true", "parse_partial_default", "write_partial_default", "json_read_nested_defaults", "block_copy_twice", "block_copy_pool", "write_hinted_strict", "write_hinted", "dec_p6_read", "dec_p20_read"]
 
 
 def step_check(res, fa, pool, hist, call):
